@@ -3,6 +3,7 @@ package agentstorage
 
 import (
 	"io"
+	"strconv"
 
 	"github.com/uber/kraken/core"
 	"github.com/uber/kraken/lib/store"
@@ -83,7 +84,7 @@ const (
 )
 
 func verifC04RedownloadRun(blob []byte, plen int, mode int) {
-	verif.Note("C04 redownload: blob bytes are concrete (distinct non-zero values, so a zero-filled file is never the blob) for byte-exact sidecars / native replay; unknowns are the crash point, the piece order, the number of pieces written, the unlink order of RemoveAll (delete mode), whether the agent restarts once more after the eviction, and which missing piece the second download writes first")
+	verif.Note("C04 redownload: the reference blob and its metainfo are concrete (distinct non-zero values, so a zero-filled file is never the blob) for byte-exact sidecars / native replay; in the crash-in-download mode the bytes the peers deliver in the first life are symbolic (crc32 uninterpreted, checksum collision exclusion assumed); the other unknowns are the crash point, the piece order, the number of pieces written, the unlink order of RemoveAll (delete mode), whether the agent restarts once more after the eviction, and which missing piece the second download writes first")
 	d, err := core.NewSHA256DigestFromHex(verifC04Name)
 	verif.Assert("digest", err == nil)
 	mi, err := core.NewMetaInfoFromBytes(d, blob, int64(plen))
@@ -114,8 +115,9 @@ func verifC04RedownloadRun(blob []byte, plen int, mode int) {
 			t1, err := archive1.CreateTorrent("ns", d)
 			verif.Assert("create-torrent", err == nil)
 			for j := 0; j < n; j++ {
-				err := t1.WritePiece(piecereader.NewBuffer(verifC04Piece(blob, plen, order(j))), order(j))
-				verif.Assert("write-piece", err == nil)
+				// symbolic bytes from the peer (accepted: the piece's bytes;
+				// rejected: garbage stays in the file, then the right bytes)
+				verifC04Deliver(t1, mi, blob, plen, order(j), "payload"+strconv.Itoa(order(j)))
 			}
 			verif.Assert("complete-after-all-pieces", t1.Complete())
 		})
